@@ -198,6 +198,32 @@ def pairArgs : List String → M (List (Str × Str))
     return (k, v) :: r
   | _ => .ok []
 
+/-- `nbt3u12l`: next, next_back, nth(3), nth_back(12), len -/
+def parseItOps (cs : List Char) : M (List ItOp) :=
+  let rec digits (cs : List Char) (acc : Nat) (any : Bool) : Option (Nat × List Char) :=
+    match cs with
+    | c :: rest => if c.isDigit then digits rest (acc * 10 + (c.toNat - 48)) true else (if any then some (acc, cs) else none)
+    | [] => if any then some (acc, []) else none
+  let rec go (fuel : Nat) (cs : List Char) (acc : Array ItOp) : M (List ItOp) :=
+    match fuel with
+    | 0 => .error "BADREQ iterator script too long"
+    | fuel + 1 =>
+      match cs with
+      | [] => .ok acc.toList
+      | 'n' :: rest => go fuel rest (acc.push .next)
+      | 'b' :: rest => go fuel rest (acc.push .nextBack)
+      | 'l' :: rest => go fuel rest (acc.push .len)
+      | 't' :: rest =>
+        match digits rest 0 false with
+        | some (n, rest') => go fuel rest' (acc.push (.nth n))
+        | none => .error "BADREQ nth without a number"
+      | 'u' :: rest =>
+        match digits rest 0 false with
+        | some (n, rest') => go fuel rest' (acc.push (.nthBack n))
+        | none => .error "BADREQ nth_back without a number"
+      | _ => .error "BADREQ bad iterator op"
+  go (cs.length + 1) cs #[]
+
 def parseQOp (a : List String) : M QOp := do
   let name ← argAt a 0
   match name with
@@ -231,6 +257,7 @@ def parseQOp (a : List String) : M QOp := do
   | "iter" => return .iter
   | "riter" => return .riter
   | "ends" => return .ends
+  | "it" => return .iterScript ((← argAt a 1) == "m") (← parseItOps (← argAt a 2).toList)
   | "imut" => return .iterMutAppend (← unh (← argAt a 1))
   | "rimut" => return .rIterMutAppend (← unh (← argAt a 1))
   | "idx" => return .index (← unh (← argAt a 1))
@@ -281,6 +308,12 @@ def showQOut (op : QOp) : QOut → String
     | some x => ordName x
     | none => "none"
   | .absent => "~"
+  | .itOuts os rest =>
+    let one : ItOut → String
+      | .item (some kv) => hS kv.1 ++ "=" ++ hS kv.2
+      | .item none => "~"
+      | .len n => "#" ++ toString n
+    "it[" ++ ",".intercalate (os.map one) ++ "]/" ++ showPairs rest
 
 def typedIndexOk (op : QOp) : M Unit :=
   match op with
